@@ -145,6 +145,9 @@ class LadderModels(Models):
             if sq != const(1):
                 self.bad.append("differential_add_and_double is called with Q - P = (%s) * base, not +-1 * base" % show_poly(d))
             self.steps += 1
+            if re.match(r"^\(.*ProjectivePoint, .*ProjectivePoint\)$", dty or ""):
+                # the functional form of the step: the inputs are left untouched and (2P, P+Q) is returned
+                return ("st", (pmul(const(2), p), padd(p, q)))
             store(0, pmul(const(2), p))
             store(1, padd(p, q))
             return ("st", ())
